@@ -8,6 +8,7 @@ import (
 	"sync"
 
 	"github.com/deepteams/webp/internal/bitio"
+	"github.com/deepteams/webp/internal/verifhook"
 )
 
 // losslessDecoderPool caches Decoder structs between decode calls so that the
@@ -343,6 +344,7 @@ func argbToNRGBA(pixels []uint32, width, height int) *image.NRGBA {
 	stride := img.Stride
 
 	numWorkers := runtime.GOMAXPROCS(0)
+	numWorkers = verifhook.Workers(verifhook.SiteLosslessArgbToNRGBA, numWorkers)
 	if numWorkers > 1 && width*height >= minPixelsForParallel {
 		rowsPerWorker := height / numWorkers
 		var wg sync.WaitGroup
@@ -353,6 +355,7 @@ func argbToNRGBA(pixels []uint32, width, height int) *image.NRGBA {
 			if w == numWorkers-1 {
 				yEnd = height
 			}
+			verifhook.Range(verifhook.SiteLosslessArgbToNRGBA, yStart, yEnd)
 			go func(yStart, yEnd int) {
 				argbToNRGBARows(pixels, pix, stride, width, yStart, yEnd)
 				wg.Done()
